@@ -79,6 +79,8 @@ def _one(args):
         except AnalysisError as exc:
             # an analysis error on a mutant counts as "noticed" (fail-closed), on a twin as noisy
             return (v.name, "error", str(exc))
+        except Exception as exc:
+            return (v.name, "error", f"internal error {type(exc).__name__}: {exc}")
         new = [k for k in ks if k not in base]
         return (v.name, "ok", new)
     except AnalysisError as exc:
